@@ -13,6 +13,9 @@ func init() { props["C11"] = checkC11 }
 
 func checkC11(c *Ctx) {
 	c.Decides("GO-WG: every worker goroutine whose launcher does wg.Add signals wg.Done on every exit path (CFG must-pass-through); GO-CLOSE: every result channel that is ranged over or returned is closed by a goroutine on all of its paths, after wg.Wait when workers send on it; GO-NILCHAN: no receive/range on a local channel variable that is still nil on some path; GO-WRITE: inside a goroutine that has several live instances, every store goes to an object the instance owns (declared in it / received from a channel), to a slot indexed by such an object's id, under a mutex, or through sync/atomic — directly or through repository callees (bottom-up write summaries)")
+	c.Decides("COUNTER-STEP: in the readers every SetId(counter) is followed, in its statement list, by a step of that counter: branch ids are distinct, which the per-branch tallies written by concurrent workers (indexed by Edge.Id) rely on")
+	c.counterStep("COUNTER-STEP", c.AllFuncs("io/newick", "io/phyloxml", "io/nextstrain"), "no data race on the per-branch tallies")
+	c.Floor("COUNTER-STEP", 4)
 	c.Decides("ERRFLOW: the per-tree error (Trees.Err, ReinitIndexes, CompareTipIndexes) reaches the record sent / the error returned on every path where it is non-nil")
 	c.Decides("ERR-SWALLOW: in the same files, a branch entered because an error value is non-nil does not leave the function with a nil error (no `return nil`, no bare return with an unset named result)")
 	c.DoesNotDecide("equality of results across thread counts beyond absence of shared unsynchronised stores (assumes edge ids unique and trees received from the channel not shared); scheduler fairness; races through external packages")
